@@ -776,7 +776,7 @@ WITNESSES = [
      "def f(c0: bool):\n    x = 1\n    def g0():\n        nonlocal x\n        if c0:\n            x = 'a'\n        return x\n    return g0()\n", [(True,), (False,)]),
     ('closure_out', 'captured_var_rebound_by_calling_statement',
      "def f():\n    x = 1\n    def g0() -> int:\n        return x\n    x = ext_i2s(g0())\n    return x\n", [()]),
-    ('no_fixed_point', 'no_fixed_point_nonmonotone_untyped_assignment',
+    ('no_fixed_point', 'no_fixed_point_nonmonotone_transfer',
      "def f(p0: int, c0: bool):\n    if c0:\n        ext_sink(c0)\n        y = 1\n    for i1 in [1, 2]:\n        y = i1\n        if c0:\n            c = 1\n            y, c = ('s', p0 >= y)\n        ext_sink(c0)\n", [(1, True)]),
     ('unbounded_products', 'no_fixed_point_unbounded_product_types',
      "def f(c0: bool):\n    x = 1\n    while c0:\n        x = (x, 1)\n    return x\n", [(False,)]),
